@@ -1,18 +1,22 @@
 #!/bin/bash
-# usage: mut.sh <file-in-repo> <python-replace-old> <new> -- <check ids...>   (applies, runs quick checks, reverts)
+# usage: mut.sh <file-in-repo> '<old text>' '<new text>' -- <check ids...>
+# Applies the replacement in a scratch git worktree of /repo (never in /repo itself), runs the quick checks
+# of THIS framework copy against that worktree (VERIF_REPO), removes the worktree.
+ROOT=$(dirname "$(readlink -f "$0")")
 f=$1; old=$2; new=$3; shift 4
-cd /repo && git diff --quiet || { echo "repo dirty"; exit 9; }
-python3 - "$f" "$old" "$new" <<'PY'
+W=$(mktemp -d /tmp/mutwt.XXXXXX); rmdir $W
+git -C /repo worktree add -q --detach $W HEAD || exit 9
+cleanup() { git -C /repo worktree remove --force $W 2>/dev/null; rm -rf $W; }
+trap cleanup EXIT
+python3 - "$W/$f" "$old" "$new" <<'PY' || exit 9
 import sys
 p,old,new=sys.argv[1:4]
 s=open(p).read()
 assert s.count(old)>=1, "pattern not found"
 open(p,'w').write(s.replace(old,new,1))
 PY
-[ $? = 0 ] || exit 9
-(cd /repo && go build ./... ) || { echo "does not build"; git -C /repo checkout -- .; exit 9; }
+(cd $W && GOFLAGS=-mod=mod go build ./... ) || { echo "mutant does not build"; exit 9; }
 for id in "$@"; do
-  out=$(cd /verif && ./check $id quick 2>&1); rc=$?
-  echo "== $id exit=$rc"; echo "$out" | grep -E "VIOLATION|signature|INFRA|^OK" | head -6 | cut -c1-260
+  out=$(cd $ROOT && VERIF_REPO=$W ./check $id ${MUT_TIER:-quick} 2>&1); rc=$?
+  echo "== $id exit=$rc"; echo "$out" | grep -E "VIOLATION|signature|INFRA|KNOWN|^OK" | head -${MUT_LINES:-6} | cut -c1-260
 done
-git -C /repo checkout -- .
